@@ -234,6 +234,18 @@ func (o *OLVM) Plan(c *Ctx) []hist.TxSpec {
 			pre := ethcmn.BytesToAddress([]byte{2})
 			out = append(out, o.tx(c, es[1], &pre, big.NewInt(1000000), nil, 21000, "value sent to the sha256 precompile with no gas beyond the intrinsic cost (fails, all gas used)"))
 		}
+	case 35, 37:
+		// a transaction that fails in its handler (nonce ahead: refused by the state transition), then, in the
+		// same block, a call that emits an event
+		if a, ok := o.contracts["log"]; ok {
+			to := ethcmn.BytesToAddress(es[1].Addr)
+			key := c.W.EthKeys[es[0].Addr.String()]
+			n := o.nonce[es[0].Addr.String()]
+			bz := OLVMTx(c, es[0], key, n+4, &to, big.NewInt(13), nil, 21000, "1000000000", ChainIDOf(c.W), fmt.Sprint(n+4))
+			bad := hist.TxSpec{Kind: "OLVM", Bytes: bz, Note: "nonce ahead by four (refused by the state transition), in front of an event-emitting call", Signers: []string{es[0].Addr.String()}}
+			bad.Meta = map[string]string{"from": es[0].Addr.String(), "nonce": fmt.Sprint(n + 4), "value": "13", "to": keys.Address(to.Bytes()).String(), "data": "", "expect": "fail"}
+			out = append(out, bad, o.tx(c, es[1], &a, big.NewInt(0), nil, 40000, "call log emitter right after a failed transaction"))
+		}
 	case 34:
 		if a, ok := o.contracts["loop"]; ok {
 			out = append(out, o.tx(c, es[1], &a, big.NewInt(4242), nil, 40000, "value sent into an infinite loop (out of gas)"))
@@ -286,6 +298,10 @@ func (o *OLVM) Plan(c *Ctx) []hist.TxSpec {
 		// fill a storage slot ...
 		if a, ok := o.contracts["store"]; ok {
 			out = append(out, o.tx(c, es[1], &a, big.NewInt(0), word([]byte{7}), 60000, "call store: set slot 0 to a non-zero value"))
+		}
+		// (and an event-emitting call by somebody else)
+		if a, ok := o.contracts["log"]; ok && !o.OneTx {
+			out = append(out, o.tx(c, es[0], &a, big.NewInt(0), nil, 40000, "call log emitter"))
 		}
 	case 10, 18:
 		// ... and clear it again: this call earns a gas refund
